@@ -196,8 +196,6 @@ class Reader:
             if t == 'element':
                 out.append(self.local_element(ch, nsmaps, tns, enclosing))
             elif t in ('sequence', 'choice'):
-                if t == 'choice' and any(_local(c.tag) == 'choice' for c in ch):
-                    raise Unsupported('choice in choice')
                 out += self.particles(ch, nsmaps, tns, enclosing + [ch])
             else:
                 raise Unsupported(f'particle {t}')
